@@ -84,7 +84,8 @@ func init() {
 		evals, cases := 0, 0
 		distinct := map[string]bool{}
 		var samples []interface{}
-		names := []string{"n", "a.b", "", "x-y"}
+		names := []string{"n", "a.b", "", "x-y", "used%", "100%busy%s"}
+		hnames := []string{"h", "disk.used%", "a%%b", "h%d.%s"}
 		ivals := []int64{0, 1, -1, math.MaxInt64, math.MinInt64, 123456789}
 		gvals := []float64{0, 1.5, -1.5, 2.999999, -0.4, 1e15 + 0.5, -9007199254740993, 5e-324, 5, 5, 7, 7.5, 0.2, -0.3, 0}
 		for pi, prec := range precs {
@@ -153,6 +154,7 @@ func init() {
 						if !ok {
 							continue // bounds do not differ at this precision: outside the premise
 						}
+						hname := hnames[(si+pi)%len(hnames)]
 						hc := &histCase{kind: kind, spec: sp, vt: vt, dt: dt}
 						pairs := tally.BucketPairs(hc.buckets())
 						var stats [][]interface{}
@@ -160,10 +162,10 @@ func init() {
 							var lo, hi int
 							if kind == "value" {
 								lo, hi = vt.boundTok(p.LowerBoundValue()), vt.boundTok(p.UpperBoundValue())
-								rep.ReportHistogramValueSamples("h", tags, hc.buckets(), p.LowerBoundValue(), p.UpperBoundValue(), 3)
+								rep.ReportHistogramValueSamples(hname, tags, hc.buckets(), p.LowerBoundValue(), p.UpperBoundValue(), 3)
 							} else {
 								lo, hi = dt.boundTok(p.LowerBoundDuration()), dt.boundTok(p.UpperBoundDuration())
-								rep.ReportHistogramDurationSamples("h", tags, hc.buckets(), p.LowerBoundDuration(), p.UpperBoundDuration(), 3)
+								rep.ReportHistogramDurationSamples(hname, tags, hc.buckets(), p.LowerBoundDuration(), p.UpperBoundDuration(), 3)
 							}
 							// tokenise the stat name: h.<lo>-<hi>
 							for i := range st.calls {
@@ -174,8 +176,8 @@ func init() {
 								}
 								for ls, lt := range cands {
 									for hs, ht := range cands {
-										if st.calls[i].raw == "h."+ls+"-"+hs {
-											st.calls[i].Stat = []string{"h", lt, ht}
+										if st.calls[i].raw == hname+"."+ls+"-"+hs {
+											st.calls[i].Stat = []string{hname, lt, ht}
 										}
 									}
 								}
@@ -183,7 +185,7 @@ func init() {
 							if len(st.calls) > 0 {
 								stats = append(stats, []interface{}{lo, hi, st.calls[0].Stat})
 							}
-							emitReport("bucket", "h", "3", "", lo, hi)
+							emitReport("bucket", hname, "3", "", lo, hi)
 						}
 						tr.Emit(M{"e": "hist", "kind": kind, "spec": sp, "stats": stats})
 						cases++
